@@ -328,3 +328,4 @@ func Choose(name string, lo, hi int) int {
 }
 
 func UFSlice(fn, sym string, lenArg int) {}
+func QueryTimeout(ms int) {}
